@@ -191,25 +191,38 @@ Qed.
 Lemma set_urrs_frame c l : sframe c (upd_s c (set_urrs l)).
 Proof. apply upd_s_frame; reflexivity. Qed.
 
+Lemma held_urr_spec s i u : held_urr s i = Some u -> alookup i (s_urrs s) = Some u /\ ui_removed u = false.
+Proof.
+  unfold held_urr. destruct (alookup i (s_urrs s)) as [x|]; [|discriminate].
+  destruct (ui_removed x) eqn:R; [discriminate|]. intros H. inversion H; subst. auto.
+Qed.
+
 Lemma create_urr_good e o c : good c (create_urr e o c).
 Proof.
   unfold create_urr. destruct (uo_id o) as [i|]; [|apply good_refl].
-  match goal with |- context [aset i ?inf _] => set (info := inf) end.
+  set (old := held_urr (c_s c) i).
+  match goal with |- context [aset i ?inf (s_urrs _)] => set (info := inf) end.
+  assert (Hinfo : ui_removed info = false) by reflexivity.
   set (c1 := upd_s c (fun s => set_urrs (aset i info (s_urrs s)) s)).
-  destruct (drv e c1 DCreate KURR i) as [c2 ok] eqn:E. cbn [fst].
-  assert (F1 : sframe c c1) by (apply upd_s_frame; reflexivity).
-  split; [eapply sframe_trans; [exact F1 | eapply drv_frame; eauto]|].
-  intros HS. apply drv_spec in E. destruct E as [Hs [Hd _]].
-  pose proof (dp_call_spec _ _ _ _ _ _ _ _ Hd) as [A _].
-  rewrite Hs.
-  assert (H1 : SOK (c_s c1) (c_dp c)).
-  { apply SOK_aset_urr; [assumption|]. intros Hrm. discriminate. }
-  destruct H1 as [Hc Hr]. cbn [c1 upd_s c_s c_dp] in *. split.
-  - intros k id Hi. apply A in Hi. destruct Hi as [Hi|[Heq _]]; [auto|].
-    inversion Heq; subst. rewrite recorded_set_urrs. apply keys_aset. left. reflexivity.
-  - intros u inf Hu Hrm Hi. apply A in Hi. destruct Hi as [Hi|[Heq _]]; [eapply Hr; eauto|].
-    inversion Heq; subst. cbn [set_urrs s_urrs] in Hu. rewrite alookup_aset_same in Hu.
-    inversion Hu; subst. discriminate.
+  destruct (drv e c1 DCreate KURR i) as [c2 ok] eqn:E.
+  assert (G2 : good c c2).
+  { assert (F1 : sframe c c1) by (apply upd_s_frame; reflexivity).
+    split; [eapply sframe_trans; [exact F1 | eapply drv_frame; eauto]|].
+    intros HS. apply drv_spec in E. destruct E as [Hs [Hd _]].
+    pose proof (dp_call_spec _ _ _ _ _ _ _ _ Hd) as [A _].
+    rewrite Hs.
+    assert (H1 : SOK (c_s c1) (c_dp c)).
+    { apply SOK_aset_urr; [assumption|]. intros Hrm. rewrite Hinfo in Hrm. discriminate. }
+    destruct H1 as [Hc Hr]. cbn [c1 upd_s c_s c_dp] in *. split.
+    - intros k id Hi. apply A in Hi. destruct Hi as [Hi|[Heq _]]; [auto|].
+      inversion Heq; subst. rewrite recorded_set_urrs. apply keys_aset. left. reflexivity.
+    - intros u inf Hu Hrm Hi. apply A in Hi. destruct Hi as [Hi|[Heq _]]; [eapply Hr; eauto|].
+      inversion Heq; subst. cbn [set_urrs s_urrs] in Hu. rewrite alookup_aset_same in Hu.
+      inversion Hu; subst. rewrite Hinfo in Hrm. discriminate. }
+  destruct ok; [exact G2|]. destruct old as [u|] eqn:Eo; [|exact G2].
+  eapply good_trans; [exact G2|]. split; [apply upd_s_frame; reflexivity|].
+  intros HS. cbn [upd_s c_s c_dp]. apply SOK_aset_urr; [exact HS|].
+  intros Hrm. destruct (held_urr_spec _ _ _ Eo) as [_ Hf]. rewrite Hf in Hrm. discriminate.
 Qed.
 
 Lemma update_urr_good e o c : good c (fst (update_urr e o c)).
@@ -360,9 +373,64 @@ Proof.
   - intros u inf Hu Hrm. cbn [set_pdrs s_urrs s_lid] in *. eapply Hr; eauto.
 Qed.
 
-Lemma create_pdr_good e o c : good c (create_pdr e o c).
+Lemma decr_ref_removed u l u' inf' :
+  alookup u' (decr_ref u l) = Some inf' ->
+  exists inf, alookup u' l = Some inf /\ ui_removed inf' = ui_removed inf.
 Proof.
-  unfold create_pdr.
+  unfold decr_ref. destruct (alookup u l) as [inf|] eqn:E; [|intros H; exists inf'; auto].
+  destruct (0 <? ui_ref inf); [|intros H; exists inf'; auto].
+  destruct (N.eq_dec u' u) as [->|Hne].
+  - rewrite alookup_aset_same. intros H. inversion H; subst. exists inf. auto.
+  - rewrite alookup_aset_other by assumption. intros H. exists inf'. auto.
+Qed.
+
+Lemma decr_ref_keys u l k : In k (map fst (decr_ref u l)) <-> In k (map fst l).
+Proof.
+  unfold decr_ref. destruct (alookup u l) as [inf|] eqn:E; [|tauto]. destruct (0 <? ui_ref inf); [|tauto].
+  rewrite keys_aset. apply alookup_key in E. split.
+  - intros [Hk | Hk]; [subst; assumption | assumption].
+  - intros Hk. right. assumption.
+Qed.
+
+Lemma decr_refs_removed us l u' inf' :
+  alookup u' (fold_left (fun l u => decr_ref u l) us l) = Some inf' ->
+  exists inf, alookup u' l = Some inf /\ ui_removed inf' = ui_removed inf.
+Proof.
+  revert l. induction us as [|u us IH]; intros l; cbn [fold_left].
+  - intros H. exists inf'. auto.
+  - intros H. apply IH in H. destruct H as [i1 [H1 E1]].
+    apply decr_ref_removed in H1. destruct H1 as [i0 [H0 E0]]. exists i0. split; [assumption | congruence].
+Qed.
+
+Lemma decr_refs_keys us l k : In k (map fst (fold_left (fun l u => decr_ref u l) us l)) <-> In k (map fst l).
+Proof.
+  revert l. induction us as [|u us IH]; intros l; cbn [fold_left]; [tauto|].
+  rewrite IH. apply decr_ref_keys.
+Qed.
+
+Lemma SOK_decr_refs s dp us :
+  SOK s dp -> SOK (set_urrs (fold_left (fun l u => decr_ref u l) us (s_urrs s)) s) dp.
+Proof.
+  intros [Hc Hr]. split.
+  - intros k id Hi. cbn [set_urrs s_lid] in Hi. apply Hc in Hi. rewrite recorded_set_urrs.
+    destruct k; try assumption. apply decr_refs_keys. assumption.
+  - intros u inf Hu Hrm. cbn [set_urrs s_urrs s_lid] in *.
+    apply decr_refs_removed in Hu. destruct Hu as [i0 [H0 E0]]. eapply Hr; [exact H0 | congruence].
+Qed.
+
+Lemma set_urrs_twice l l' s : set_urrs l (set_urrs l' s) = set_urrs l s.
+Proof. destruct s; reflexivity. Qed.
+
+Lemma SOK_decr_incr_refs s dp ds us :
+  SOK s dp -> SOK (set_urrs (fold_left (fun l u => decr_ref u l) ds (fold_left (fun l u => incr_ref u l) us (s_urrs s))) s) dp.
+Proof.
+  intros H. pose proof (SOK_decr_refs _ dp ds (SOK_incr_refs s dp us H)) as H2.
+  cbn [set_urrs s_urrs] in H2. rewrite set_urrs_twice in H2. exact H2.
+Qed.
+
+Lemma create_pdr_new_good e o c : good c (create_pdr_new e o c).
+Proof.
+  unfold create_pdr_new.
   set (us := dedup (po_urrs o)).
   set (c1 := upd_s c (fun s => set_urrs (fold_left (fun l u => incr_ref u l) us (s_urrs s)) s)).
   set (c2 := upd_s c1 (fun s => set_pdrs (aset (pdr_id o) us (s_pdrs s)) s)).
@@ -380,6 +448,48 @@ Proof.
     inversion Heq; subst. rewrite recorded_set_pdrs. apply keys_aset. left. reflexivity.
   - intros u inf Hu Hrm Hi. apply A in Hi. destruct Hi as [Hi|[Heq _]]; [eapply Hr; eauto|].
     inversion Heq.
+Qed.
+
+Lemma create_pdr_held_good e o old c : alookup (pdr_id o) (s_pdrs (c_s c)) = Some old -> good c (create_pdr_held e o old c).
+Proof.
+  intros Hold. unfold create_pdr_held.
+  set (new := dedup (po_urrs o)).
+  match goal with |- context [upd_s c ?f] => set (c1 := upd_s c f) end.
+  set (c2 := upd_s c1 (fun s => set_pdrs (aset (pdr_id o) new (s_pdrs s)) s)).
+  destruct (drv e c2 DCreate KPDR (pdr_id o)) as [c3 ok] eqn:E.
+  assert (F1 : sframe c c1) by (apply upd_s_frame; reflexivity).
+  assert (F2 : sframe c1 c2) by (apply upd_s_frame; reflexivity).
+  assert (F3 : sframe c c3) by (eapply sframe_trans; [exact F1 | eapply sframe_trans; [exact F2 | eapply drv_frame; eauto]]).
+  pose proof E as E0. apply drv_spec in E. destruct E as [Hs [Hd _]].
+  pose proof (dp_call_spec _ _ _ _ _ _ _ _ Hd) as [A _].
+  destruct ok.
+  - split; [exact F3|]. intros HS. rewrite Hs.
+    assert (H2 : SOK (c_s c2) (c_dp c)).
+    { cbn [c2 c1 upd_s c_s]. apply SOK_aset_pdr. apply SOK_decr_incr_refs. assumption. }
+    destruct H2 as [Hc Hr]. cbn [c2 c1 upd_s c_s c_dp] in *. split.
+    + intros k id Hi. apply A in Hi. destruct Hi as [Hi|[Heq _]]; [auto|].
+      inversion Heq; subst. rewrite recorded_set_pdrs. apply keys_aset. left. reflexivity.
+    + intros u inf Hu Hrm Hi. apply A in Hi. destruct Hi as [Hi|[Heq _]]; [eapply Hr; eauto|]. inversion Heq.
+  - split.
+    + eapply sframe_trans; [exact F3|]. apply upd_s_frame; cbn [set_pdrs set_urrs s_lid s_rid s_node];
+        destruct F3 as [l3 r3 n3 _ _]; congruence.
+    + intros [Hc Hr]. cbn [upd_s c_s c_dp]. cbn [c2 c1 upd_s c_s c_dp set_pdrs set_urrs s_lid] in *.
+      assert (Hl : s_lid (set_pdrs (s_pdrs (c_s c)) (set_urrs (s_urrs (c_s c)) (c_s c3))) = s_lid (c_s c)).
+      { cbn [set_pdrs set_urrs s_lid]. rewrite Hs. reflexivity. }
+      split.
+      * intros k id Hi. rewrite Hl in Hi. apply A in Hi.
+        assert (Hrec : forall k0, recorded (set_pdrs (s_pdrs (c_s c)) (set_urrs (s_urrs (c_s c)) (c_s c3))) k0 = recorded (c_s c) k0).
+        { intros k0. rewrite Hs. destruct k0; reflexivity. }
+        rewrite Hrec. destruct Hi as [Hi|[Heq _]]; [apply Hc; exact Hi|].
+        inversion Heq; subst. cbn [recorded]. apply alookup_key in Hold. exact Hold.
+      * intros u inf Hu Hrm Hi. rewrite Hl in Hi. cbn [set_pdrs set_urrs s_urrs] in Hu. apply A in Hi.
+        destruct Hi as [Hi|[Heq _]]; [eapply Hr; eauto|]. inversion Heq.
+Qed.
+
+Lemma create_pdr_good e o c : good c (create_pdr e o c).
+Proof.
+  unfold create_pdr. destruct (alookup (pdr_id o) (s_pdrs (c_s c))) as [old|] eqn:E;
+    [apply create_pdr_held_good; exact E | apply create_pdr_new_good].
 Qed.
 
 Lemma update_pdr_good e o c : good c (fst (update_pdr e o c)).
